@@ -90,7 +90,28 @@ class FileSystemLoader(BaseLoader):
         return TemplateSource(
             source,
             str(source_path),
-            partial(self._uptodate, source_path, mtime),
+            partial(self._is_current, template_name, source_path, mtime),
+        )
+
+    def _is_current(self, template_name: str, source_path: Path, mtime: float) -> bool:
+        """Is the file read from _source_path_ still what _template_name_ means?
+
+        With more than one search path a file added to an earlier directory
+        shadows the one that was loaded (and removing it un-shadows the later
+        one), without the loaded file changing at all.
+        """
+        try:
+            if self.resolve_path(template_name) != source_path:
+                return False
+        except TemplateNotFoundError:
+            return False
+        return self._uptodate(source_path, mtime)
+
+    async def _is_current_async(
+        self, template_name: str, source_path: Path, mtime: float
+    ) -> bool:
+        return await asyncio.get_running_loop().run_in_executor(
+            None, partial(self._is_current, template_name, source_path, mtime)
         )
 
     @staticmethod
@@ -120,5 +141,7 @@ class FileSystemLoader(BaseLoader):
         source_path = await loop.run_in_executor(None, self.resolve_path, template_name)
         source, mtime = await loop.run_in_executor(None, self._read, source_path)
         return TemplateSource(
-            source, str(source_path), partial(self._uptodate_async, source_path, mtime)
+            source,
+            str(source_path),
+            partial(self._is_current_async, template_name, source_path, mtime),
         )
